@@ -144,6 +144,10 @@ def handle (op : String) (args : List String) : Option String :=
       let (prev, failAt) ← run (do let p ← list nat; let f ← int; pure (p, f)) args
       let db := Checkpoint.sqlRun ⟨prev, none⟩ (Checkpoint.sqlSaveStmts 999) (if failAt < 0 then none else some failAt.toNat)
       pure (showNats db.committed)
+  | "smp.pso" => do
+      let (bs, ns) ← run (do let bs ← nat; let ns ← list nat; pure (bs, ns)) args
+      pure (joinSp ((Samplers.Pso.run (Samplers.Pso.sampleBatch bs) Samplers.Pso.init ns).map (fun a => match a with
+        | .start => "S" | .update n lo hi => s!"U:{n}:{lo}:{hi}")))
   | "smp.select" => do
       let (dims, order, pool, k) ← run (do
         let dims ← nat; let order ← list nat; let pool ← list (rep flt dims); let k ← nat; pure (dims, order, pool, k)) args
